@@ -399,12 +399,19 @@ Proof.
            ++ exact IH.
 Qed.
 
+Lemma hd_error_rev (l : bytes) : hd_error (rev l) = last_byte l.
+Proof.
+  induction l as [|b r IH]; [reflexivity|]. cbn [rev last_byte]. destruct r as [|c r']; [reflexivity|].
+  rewrite <- IH. cbn [rev]. destruct (rev r' ++ [c]) eqn:E; [destruct (rev r'); discriminate|reflexivity].
+Qed.
+
+(* the flag returned with the value: whether the last byte of the group encoding is a line feed *)
 Theorem binary_uint_decodes v lr :
   WFV v -> BytesOK v -> vcur v <= vhwm v ->      (* the cursor never passes what is buffered *)
   match varint_decode (rest_at v 0) with
   | Some (n, rest') =>
       exists grp v',
-        srun (binary_uint lr) v = ADone (Ok n, lr) v' /\
+        srun (binary_uint lr) v = ADone (Ok (n, is_byte (last_byte grp) 10), lr) v' /\
         rest_at v 0 = grp ++ rest' /\ n = group_value grp /\
         vS v' = vS v /\ vcur v' = vcur v + nlen grp /\ rest_at v' 0 = rest' /\ vmark v' = vmark v
   | None => forall n lr' v', srun (binary_uint lr) v <> ADone (Ok n, lr') v'
@@ -421,7 +428,7 @@ Proof.
       rewrite rev_length. assert (128 ^ N.of_nat (length grp) <= 128 ^ 8) by (apply N.pow_le_mono_r; lia).
       change (128 ^ 8) with 72057594037927936 in H. unfold W64. lia. }
     exists grp, (v_advance v' (nlen grp)).
-    rewrite srun_pbind, I4. rewrite Hvv. unfold padvance, lift, pret. cbn [pbind srun].
+    rewrite srun_pbind, I4. rewrite Hvv. cbv zeta. rewrite hd_error_rev. unfold padvance, lift, pret. cbn [pbind srun].
     assert (Hlen : nlen (rev grp) = nlen grp) by (unfold nlen; rewrite rev_length; reflexivity).
     rewrite Hlen. destruct I5 as (a1 & a2 & a3 & a4 & a5 & a6 & a7).
     assert ((vcur v' + nlen grp <=? vhwm v') = true) as -> by (apply N.leb_le; lia).
